@@ -110,6 +110,24 @@ def run(tier):
             cases.append(("q%d" % kq, "struct A\n{\n\tb: %s,\n}\nconst N: usize = 2;\nstruct B\n{\n\ta: %s,\n\tx: i32,\n}\nfn main() -> i32\n{\n\tvar v: B;\n\tv.x = 1;\n\treturn: v.x\n}\n" % (f1.replace("A", "B"), f2), "self-containing")); kq += 1
     for e in ("N", "N + 1", "|:A|", "M", "|:[N]u8|"):
         cases.append(("q%d" % kq, "const N: usize = %s;\nconst M: usize = N;\nstruct A\n{\n\titems: [M]u8,\n}\nfn main()\n{\n}\n" % e, "self-containing")); kq += 1
+    # escapes in literals: every two-character tail of \x over a small alphabet, \u{...} shapes, lone backslashes
+    ke = 0
+    alpha = "09afAFgzZ_ }{"
+    for a in alpha:
+        for b in alpha:
+            for q in ('"', "'"):
+                cases.append(("e%d" % ke, "fn main()\n{\n\tvar s = %s\\x%s%s%s;\n}\n" % (q, a, b, q), "escapes")); ke += 1
+    for body in ["\\u{}", "\\u{g}", "\\u{110000}", "\\u{D800}", "\\u{41", "\\u41}", "\\u{0000000041}", "\\", "\\q", "\\x", "\\x4", "\\0", "\\u{-1}", "\\u{ 41}", "\\U{41}"]:
+        for q in ('"', "'"):
+            cases.append(("e%d" % ke, "fn main()\n{\n\tvar s = %s%s%s;\n}\n" % (q, body, q), "escapes")); ke += 1
+    # print! / format! with format-like and control bytes in the text, with and without arguments of every type
+    texts = ["a\\0b", "%d %s %%", "100%", "\\n\\t\\r", "é€😀", "\\x00\\xFF", "{}", "a\\\"b", ""]
+    args = ["", ", 1i32", ", 200u8", ", -5i128", ", true", ", 'c'", ", 18446744073709551615u64", ", x", ", x, x"]
+    for ti, t in enumerate(texts):
+        for ai, a in enumerate(args):
+            for b in ("print", "eprint", "format"):
+                stmt = '%s!("%s"%s);' % (b, t, a) if b != "format" else 'var s = format!("%s"%s);' % (t, a)
+                cases.append(("pf%d" % ke, "fn main()\n{\n\tvar x: i32 = 7;\n\t%s\n}\n" % stmt, "print-formats")); ke += 1
     # two and three modules that use the same builtins (state that survives from one module to the next)
     k2 = 0
     for b1 in ('print!("a\\n");', "abort!();", 'var s = format!("x", 1);', 'print!(12345i64, "\\n");'):
